@@ -96,4 +96,39 @@ theorem notifyChanged_decls (s : Svc) (ch : PyDict Str Str) (tick : Nat) :
 theorem notifyChanged_events (s : Svc) (ch : PyDict Str Str) (tick : Nat) :
     ∃ listed, (notifyChanged s ch tick).events = s.events ++ [listed] := ⟨_, rfl⟩
 
+/-- (proof of `C10.status_spec`) over the generated ladder: for every combination of present / absent / wrong
+    NT, NTS, SID the leading header tests return 400 when NT or NTS is missing, 412 when NT / NTS is wrong
+    or SID is missing, and fall through (to the 200 paths) otherwise; no header combination raises. -/
+theorem ladder_spec (h : NHeaders) :
+    runLadder h Gen.C10Notify.notifyLadder =
+      (if specStatus h = 200 then none else some (.status (specStatus h)))
+    ∧ Gen.C10Notify.backlogStatus = 200 ∧ Gen.C10Notify.doneStatus = 200 := by
+  refine ⟨?_, by decide, by decide⟩
+  obtain ⟨nt, nts, sid⟩ := h
+  cases nt with
+  | none => cases nts <;> cases sid <;> simp [runLadder, evalOr, evalCond, hget, specStatus, Gen.C10Notify.notifyLadder, kNT, kNTS, kSID]
+  | some v =>
+    cases nts with
+    | none => cases sid <;> simp [runLadder, evalOr, evalCond, hget, specStatus, Gen.C10Notify.notifyLadder, kNT, kNTS, kSID]
+    | some w =>
+      by_cases h1 : v = ntEvent <;> by_cases h2 : w = ntsPropchange <;> cases sid <;>
+        simp [runLadder, evalOr, evalCond, hget, specStatus, Gen.C10Notify.notifyLadder, kNT, kNTS, kSID, h1, h2] <;>
+        simp_all [ntEvent, ntsPropchange]
+
+
+/-- the variable of another index is literally the same after `modifyAt` -/
+theorem frame_other {α : Type} (l : List α) (i j : Nat) (f : α → α) (h : i ≠ j) :
+    (modifyAt l i f)[j]? = l[j]? := by
+  induction l generalizing i j with
+  | nil => cases i <;> rfl
+  | cons a r ih =>
+    cases i with
+    | zero => cases j with
+      | zero => exact absurd rfl h
+      | succ j' => rfl
+    | succ i' => cases j with
+      | zero => rfl
+      | succ j' => simpa [modifyAt] using ih i' j' (by omega)
+
+
 end Upnp.C10
